@@ -593,11 +593,11 @@ class WalletWorld:
                 return [self.item(f.read(), own, priv, signed, what='save file')]
         if c == 'to_watch_only':
             # watch-only wallets created (in one new database) from what the wallet hands out as public: the exported
-            # WIF(s), the WIF attribute of the public master key(s), their HDKey objects; the first becomes the subject
+            # WIF(s), and (seeded) the WIF attribute of the public master key(s) or their HDKey objects; the first becomes the subject
             items = []
             made = []
             d2 = tempfile.mkdtemp(prefix='c16watch_', dir=os.environ['BCL_DATA_DIR'])
-            for how in ('wif', 'pm_wif', 'pm_key'):
+            for how in ('wif', rng.choice(['pm_wif', 'pm_key'])):
                 try:
                     if how == 'wif':
                         exp = w.wif(is_private=False)
